@@ -30,6 +30,7 @@ pub mod c11;
 pub mod c12;
 pub mod c13;
 pub mod c14;
+pub mod c15;
 pub mod c16;
 pub mod c19;
 
@@ -49,6 +50,7 @@ pub fn registry() -> Vec<(&'static str, fn())> {
 	v.extend_from_slice(c13::HARNESSES);
 	v.extend_from_slice(c14::HARNESSES);
 	v.extend_from_slice(c16::HARNESSES);
+	v.extend_from_slice(c15::HARNESSES);
 	v.extend_from_slice(c19::HARNESSES);
 	v
 }
